@@ -329,6 +329,20 @@ pub fn sweep_case(prop: &str, thorough: bool) -> BoxedStrategy<Case> {
         .boxed()
 }
 
+/// short pause-free histories for the sweep with two pauses (preemption bound 2)
+pub fn sweep2_case(prop: &str, thorough: bool) -> BoxedStrategy<Case> {
+    let mut p = profile_for(prop, false);
+    p.pause_pct = 0;
+    p.steps = (2, if thorough { 6 } else { 5 });
+    p.nevers = false;
+    case(p)
+        .prop_map(|mut c| {
+            c.sweep = Some(2);
+            c
+        })
+        .boxed()
+}
+
 /// C04: recycle / create timeouts on a virtual clock (delegated to the tsim interpreter)
 pub fn timed_case(thorough: bool) -> BoxedStrategy<Case> {
     tsim::managed_runtime_case(thorough)
